@@ -190,8 +190,11 @@ def _c03_plan(prop, tier):
             "format_code (sort_imports, fix_line_lengths, remove_unused_imports or simplify_assign_immediate_return, drawn) "
             "returns its result with an unbalanced bracket appended on drawn calls, so format_code itself returns broken text "
             "and the write guard is the only thing between it and the disk; at every write (old bytes, new bytes) are "
-            "recorded by the file-system seam: valid old => valid new, and new != old; (c) the same monitor on fault-free "
-            "E3 runs; (d) E2 histories: every text returned by format_code, a rule or sub/subn for a parsable input parses. "
+            "recorded by the file-system seam: valid old => valid new (judged on the bytes, so PEP 263 cookies and BOMs "
+            "count; one tree in ten holds a valid cp1252 file), and new != old; (c) the same monitor on fault-free "
+            "E3 runs; (d) E2 histories over corpus and generated modules: every text returned by format_code, a rule or "
+            "sub/subn for a parsable input parses; (e) E5 direct back-end: alter_code with replacements only, 30 % of the "
+            "expression replacements unparsable by construction - the back-end's own rollback must return parsable text. "
             "distinct = union of the engines' signatures; non-trivial as defined per engine (conflict / fault present, "
             "multi-worker or cross-read schedule, warm cache entry hit)."
         ),
@@ -199,9 +202,11 @@ def _c03_plan(prop, tier):
             {"engine": "e1_txn", "label": "txn", "n": 2500 if q else 150000, "timeout": 120.0},
             {"engine": "e3_pool", "label": "pool-stagefault", "n": 60 if q else 4000, "kwargs": {"profile": "stagefault", "schedules": 2}, "timeout": 900.0},
             {"engine": "e3_pool", "label": "pool-base", "n": 30 if q else 2000, "kwargs": {"profile": "base", "schedules": 2}, "timeout": 900.0},
-            {"engine": "e2_history", "label": "hist", "n": 150 if q else 8000, "timeout": 600.0},
+            {"engine": "e2_history", "label": "hist", "n": 100 if q else 8000, "timeout": 600.0},
+            {"engine": "e2_history", "label": "hist-generated", "n": 60 if q else 4000, "kwargs": {"generated": True}, "timeout": 600.0},
+            {"engine": "e5_optout", "label": "direct-backend", "n": 1200 if q else 60000, "kwargs": {"kind": "direct"}, "timeout": 300.0},
         ],
-        "probes": ["fault.rollback_taken_poison", "guard.writes_checked", "fault.stage_fault_suppressed_by_guard", "O5.valid_in_checked", "guard.original_invalid_written"],
+        "probes": ["fault.rollback_taken_poison", "guard.writes_checked", "fault.poison_replacement_direct_backend", "direct.replacement_only_calls_validity_checked", "fault.stage_fault_suppressed_by_guard", "O5.valid_in_checked", "guard.original_invalid_written"],
         "assumptions": [
             "the universal claim over all input texts is only sampled (corpus + generators); what is decided by simulation are the effect / recovery clauses: pass rollback under faults, the write guard, the no-rewrite rule",
             "the injected stage fault stands for 'a rule misbehaves'; the text format_code returns under it is broken by construction and not judged",
